@@ -242,6 +242,10 @@ class NegotiationStream(Stream):
             S("lang", [("en", [], None)], ["en-US", "en-GB"]),
             S("lang", [("en", [], "0"), ("*", [], "0.1")], ["en", "de"]),
             S("lang", [("en-US", [], "0")], ["en"]),
+            # F17c: offers refused with q=0 come back through the fallback stages
+            S("lang", [("en-US", [], "0"), ("*", [], None)], ["en_us"]),
+            S("lang", [("en-US", [], "0"), ("en", [], "0.5")], ["en-US"]),
+            S("lang", [("en", [], "0"), ("en-GB", [], None)], ["en"]),
             # specificity beats quality for the offer's quality
             S("mime", [("text/*", [], "0.9"), ("text/html", [], "0.2"), ("*/*", [], "0.5")], ["text/html", "text/plain", "image/png"]),
             S("mime", [("text/html", ["level=1"], "0.3"), ("text/html", [], "0.7"), ("*/*", [], "0.1")], ["text/html;level=1", "text/html", "text/plain"]),
@@ -424,12 +428,15 @@ class NegotiationStream(Stream):
         if "header" in case or case.get("grey") or any(q_status(it["q"]) == "grey" for it in case["items"]):
             return None
         what = self.strict(case, f, case["items"])
+        if what is not None and what.startswith("[q0-fallback] "):
+            return what
         if what is not None and any(it["q"] == "" for it in case["items"]):
             # known finding F17b: `;q=` (empty value) is dropped by parse_options_header as an
             # invalid parameter, so the item is kept with q=1 instead of being ignored. Classified
             # as F17b only when reading those items as "q absent" explains the whole behaviour.
             alt = [dict(it, q=None) if it["q"] == "" else it for it in case["items"]]
-            if self.strict(case, f, alt) is None:
+            w2 = self.strict(case, f, alt)
+            if w2 is None or w2.startswith("[q0-fallback] "):
                 return "[empty-q] " + what
         return what
 
@@ -465,10 +472,21 @@ class NegotiationStream(Stream):
         have = None if best == "~" else unhs(best)
         if have != want:
             return f"best_match = {have!r}, the property's choice is {want!r}"
+        # 5. "an offer whose best range has q=0 ... is never chosen" also binds the documented
+        # fallbacks of LanguageAccept: they may pick an offer no range matches exactly, but not one
+        # the client refused (known finding F17c)
+        if have is not None:
+            sq = ref_quality(cls, valid, have)
+            if sq is not None and sq[1] <= 0:
+                return f"[q0-fallback] best_match chose {have!r} although its most specific matching range has q=0"
         return None
 
     def finding_key(self, case, what):
-        return "F17b" if what.startswith("[empty-q] ") else None
+        if what.startswith("[empty-q] "):
+            return "F17b"
+        if what.startswith("[q0-fallback] ") and case["cls"] == "lang":
+            return "F17c"
+        return None
 
     def nontrivial(self, case, real_out):
         f = real_out.split("|")
